@@ -23,6 +23,8 @@ GenSeipd == (phase = 1) =>
        P([kind |-> "seipd2", cipher |-> c.id, aead |-> a.id, cbits |-> cb, plen |-> pl, plan |-> Seipd2Plan(c.id, c.key, a.id, a.nonce, cb, pl)])
   /\ \A c \in Ciphers : \A pl \in {0, 1, c.bs - 1, c.bs, c.bs + 1, 2 * c.bs, 1000} :
        P([kind |-> "seipd1", cipher |-> c.id, keylen |-> c.key, bs |-> c.bs, plen |-> pl, plan |-> Seipd1Plan(c.bs, pl)])
+  /\ \A c \in Ciphers : \A pl \in {0, 1, c.bs - 1, c.bs, c.bs + 1, 2 * c.bs, 1000} :
+       P([kind |-> "sed", cipher |-> c.id, keylen |-> c.key, bs |-> c.bs, plen |-> pl, plan |-> SedPlan(c.bs, pl)])
 GenSkesk == (phase = 1) =>
   /\ \A c \in Ciphers : \A esk \in BOOLEAN : P([kind |-> "skesk", ver |-> 4, cipher |-> c.id, keylen |-> c.key, bs |-> c.bs, aead |-> 0, nonce |-> 0, has_esk |-> esk, plan |-> SkeskPlan(4, c.id, 0, esk)])
   /\ \A c \in AesCiphers : \A a \in Aeads : P([kind |-> "skesk", ver |-> 6, cipher |-> c.id, keylen |-> c.key, bs |-> c.bs, aead |-> a.id, nonce |-> a.nonce, has_esk |-> TRUE, plan |-> SkeskPlan(6, c.id, a.id, TRUE)])
